@@ -8,6 +8,9 @@ import (
 )
 
 var c01Methods = []string{"", "m", "echo", "Ünï/cødé", "日本語", "a b", "__describe__", "vgi_rpc.method", "\x00", "😀", strings.Repeat("n", 300),
+	// valid UTF-8 that "looks invalid": the replacement character itself, non-characters, the code
+	// points next to the surrogate range, the last code point, NUL inside a name
+	"\uFFFD", "lookup\uFFFDname", "\uFFFD\uFFFD", "\uFFFE", "\uFFFF", "\uD7FF", "\uE000", "\U0010FFFF", "a\x00b", "\uFFFC", "\u0080", "\u07FF\u0800", "\U00010000",
 	"\xff", "ab\xc0", "\xed\xa0\x80", "\xf4\x90\x80\x80", "\xc0\xaf", "a\xe2\x82", "\xf0\x9f\x98"}
 var c01Pvs = []string{"", "", "1.2.3", "0.0.0", "junk", "1.2", " ", "9999999999999999999999.0.0", "1.0.0\n", "é"}
 var c01Names = []string{"x", "result", "a", "", "vgi_rpc.method", "ü", "request", "col with space"}
